@@ -84,10 +84,12 @@ func (p *pkgSrc) fieldType(t, f string) string {
 // the analysis is for both being non-nil (the guards `if base == nil { return override }` are skipped). Every field of
 // both is, independently, nil or set: four worlds. The function body is interpreted in each world over values that are
 // nil, "the base's F" or "the override's F":
-//     x := expr, x = expr, m := &T{...}, m.F = expr, if cond {...} else {...}, return
-//     expr:  nil | base.F | override.F | m.F | x | g(expr...) for a function g of the package (also generic) whose
-//            body is made of ifs over `p != nil` / `p == nil` and returns of its parameters or nil
-//     cond:  expr != nil | expr == nil | !c | c && c | c || c
+//
+//	x := expr, x = expr, m := &T{...}, m.F = expr, if cond {...} else {...}, return
+//	expr:  nil | base.F | override.F | m.F | x | g(expr...) for a function g of the package (also generic) whose
+//	       body is made of ifs over `p != nil` / `p == nil` and returns of its parameters or nil
+//	cond:  expr != nil | expr == nil | !c | c && c | c || c
+//
 // The result object is the local that holds the &T{} literal. A field F counts as merged when, in every world, the
 // result's F is override.F if that is set, else base.F if that is set, else nil - and no condition on the way to an
 // assignment of F looked at another field. Fields are returned in the order of their first assignment. Anything the
